@@ -239,20 +239,87 @@ def r4_guarded_deref(ctx):
 
 
 def r5_dimension_bounds(ctx):
+    """Bounds check of cast_value on resolved iteration paths: every *declared* dimension is visited (a zip with the
+    value's shape would stop at the value's rank), and for each one the extent is refused exactly when it is below the
+    declared minimum or above the declared maximum."""
+    from ..flowexpr import consistent, explore
     fn = ctx.fn(NB, "BaseNode.cast_value")
-    loops = [l for l in ast.walk(fn) if isinstance(l, ast.For) and norm(l.iter) == "enumerate(self.dimension)"]
-    if len(loops) != 1:
-        ctx.unrecognised(NB, "BaseNode.cast_value", "dimension loop", "for d, dim in enumerate(self.dimension) not found")
+    nm = "BaseNode.cast_value"
+    try:
+        ex = explore(fn, max_paths=20000)
+    except AnalysisError as e:
+        ctx.unrecognised(NB, nm, "dimension loop", str(e))
         return
-    lp = loops[0]
-    ctx.form("shape = value.shape[d]" in [norm(s) for s in lp.body], NB, "BaseNode.cast_value", "each declared dimension is compared with the value's extent on that axis")
-    got = {}
-    for i in [x for x in lp.body if isinstance(x, ast.If) and any(isinstance(r, ast.Raise) for r in x.body)]:
-        for c in ast.walk(i.test):
-            if isinstance(c, ast.Compare) and len(c.ops) == 1 and norm(c.left) == "shape" and norm(c.comparators[0]) in ("dim[0]", "dim[1]"):
-                got[norm(c.comparators[0])] = type(c.ops[0]).__name__
-    ctx.form(got == {"dim[0]": "Lt", "dim[1]": "Gt"}, NB, "BaseNode.cast_value", "bounds: extent < minimum and extent > maximum are errors (bounds inclusive)",
-              detail=got, expected={"dim[0]": "Lt", "dim[1]": "Gt"})
+    cands = []
+    for lst in ex.iterations_all.values():
+        for lp, start, its in lst:
+            if isinstance(lp, ast.For) and "self.dimension" in norm(lp.iter):
+                cands.append((lp, start, its))
+    loops = {id(c[0]): c[0] for c in cands}
+    if len(loops) != 1:
+        ctx.unrecognised(NB, nm, "dimension loop", f"{len(loops)} loops over self.dimension")
+        return
+    lp = list(loops.values())[0]
+    it = norm(lp.iter)
+    if it in ("enumerate(self.dimension)",):
+        ctx.holds(NB, nm, "each declared dimension is compared with the value's extent on that axis", detail=it)
+    elif "zip(" in it and ".shape" in it:
+        ctx.violated(NB, nm, "each declared dimension is compared with the value's extent on that axis", detail=it,
+                     expected="enumerate(self.dimension): a value with fewer axes than declared must fail, not skip the remaining dimensions")
+    else:
+        ctx.unrecognised(NB, nm, "each declared dimension is compared with the value's extent on that axis", f"iteration over {it}")
+    # names of (index, minimum, maximum) in one iteration
+    tg = lp.target
+    if not (isinstance(tg, ast.Tuple) and len(tg.elts) == 2 and isinstance(tg.elts[0], ast.Name)):
+        ctx.unrecognised(NB, nm, "bounds", "loop target")
+        return
+    rows, unk = [], []
+    for lp_, start, its in [c for c in cands if c[0] is lp][:1]:
+        tag = next((n.id.split("@")[1] for q in its for e in q.events[start:] if e.resolved is not None for n in ast.walk(e.resolved)
+                    if isinstance(n, ast.Name) and "@loop" in n.id and not n.id.endswith("'")), None)
+        if tag is None:
+            continue
+        if isinstance(tg.elts[1], ast.Name):
+            MIN, MAX = f"{tg.elts[1].id}@{tag}[0]", f"{tg.elts[1].id}@{tag}[1]"
+        elif isinstance(tg.elts[1], ast.Tuple) and len(tg.elts[1].elts) == 2 and all(isinstance(x, ast.Name) for x in tg.elts[1].elts):
+            MIN, MAX = (f"{x.id}@{tag}" for x in tg.elts[1].elts)
+        else:
+            continue
+        D = f"{tg.elts[0].id}@{tag}"
+        for rmin in ("lt", "eq", "gt"):
+            for rmax in ("lt", "eq", "gt"):
+                def atom(e, _a=rmin, _b=rmax):
+                    k = norm(e)
+                    if k in (f"{MIN} is not None", f"{MAX} is not None"):
+                        return True
+                    if k in (f"{MIN} is None", f"{MAX} is None"):
+                        return False
+                    if isinstance(e, ast.Compare) and len(e.ops) == 1 and ".shape[" in norm(e.left) and D in norm(e.left):
+                        other = norm(e.comparators[0])
+                        rel = _a if other == MIN else (_b if other == MAX else None)
+                        if rel is None:
+                            return None
+                        o = {"lt": -1, "eq": 0, "gt": 1}[rel]
+                        return {ast.Lt: o < 0, ast.LtE: o <= 0, ast.Gt: o > 0, ast.GtE: o >= 0, ast.Eq: o == 0, ast.NotEq: o != 0}.get(type(e.ops[0]))
+                    if isinstance(e, ast.Compare) and len(e.ops) == 1 and ".shape[" in norm(e.comparators[0]) and D in norm(e.comparators[0]):
+                        other = norm(e.left)
+                        rel = _a if other == MIN else (_b if other == MAX else None)
+                        if rel is None:
+                            return None
+                        o = -{"lt": -1, "eq": 0, "gt": 1}[rel]
+                        return {ast.Lt: o < 0, ast.LtE: o <= 0, ast.Gt: o > 0, ast.GtE: o >= 0, ast.Eq: o == 0, ast.NotEq: o != 0}.get(type(e.ops[0]))
+                    return None
+                cs, u = consistent(its, atom, start)
+                unk += u
+                if cs:
+                    raised = {q.status == "raise" for q in cs}
+                    rows.append((rmin, rmax, raised))
+    if unk or not rows:
+        ctx.unrecognised(NB, nm, "bounds: extent < minimum and extent > maximum are errors (bounds inclusive)", f"tests in the dimension loop not interpreted: {sorted(set(unk))[:2]}")
+    else:
+        bad = [(a, b, sorted(r)) for a, b, r in rows if r != {(a == "lt") or (b == "gt")}]
+        ctx.check(not bad, NB, nm, "bounds: extent < minimum and extent > maximum are errors (bounds inclusive)",
+                  detail=bad or f"{len(rows)} relation cells", expected="refused iff extent < minimum or extent > maximum")
     mv = ctx.fn(NB, "BaseNode.modify_value")
     ctx.form("self.cast_value(node.value_raw)" in norm(mv), NB, "BaseNode.modify_value", "modifications are cast (and bounds-checked) by the same function")
 
